@@ -80,8 +80,8 @@ class Check(FormulaCheck):
         q = tier == 'quick'
         specs = [{'campaign': 'sentinels'}]
         for i in range(16):
-            specs.append({'campaign': 'lists', 'seed': seed, 'n': 60 if q else 5000, 'i': i})
-            specs.append({'campaign': 'criteria', 'seed': seed, 'n': 250 if q else 15000, 'i': i})
+            specs.append({'campaign': 'lists', 'seed': seed, 'n': 160 if q else 5000, 'i': i})
+            specs.append({'campaign': 'criteria', 'seed': seed, 'n': 800 if q else 15000, 'i': i})
         specs.append({'campaign': 'errors', 'seed': seed, 'n': 4 if q else 120})
         return specs
 
